@@ -322,6 +322,11 @@ RETENTION_SHAPES = [
     ("string-keys-and-values", "local t={} for i=1,10000 do t[('key'):rep(5)..i]=('v'):rep(30)..i end KEEP=t"),
     ("upvalue-chains", "local f=function() return 0 end for i=1,20000 do local g=f f=function() return g()+1 end end KEEP=f"),
     ("metatables", "local t={} for i=1,8000 do t[i]=setmetatable({}, {__index=function() return i end}) end KEEP=t"),
+    # functions made by load() keep their constants alive
+    ("loaded-functions-string-constants", "local src=\"return '\"..('x'):rep(20000)..\"'\" local t={} for i=1,150 do t[i]=load(src) end KEEP=t"),
+    ("loaded-functions-many-constants", "local p={} for i=1,400 do p[i]=\"'k\"..i..('y'):rep(40)..\"'\" end local src='return {'..table.concat(p,',')..'}' "
+                                        "local t={} for i=1,120 do t[i]=load(src) end KEEP=t"),
+    ("loaded-binary-functions", "local f=load(\"return '\"..('x'):rep(20000)..\"'\") local d=string.dump(f) local t={} for i=1,150 do t[i]=load(d,'b','b') end KEEP=t"),
 ]
 
 
